@@ -454,6 +454,9 @@ type c19KeyOpRes struct {
 	Errs   []string // verify: one per item ("" = verified)
 	CallEr string
 	Fetch  map[c19PK]c19PR
+	// NotStored: a request verified, yet when VerifyJSONs returned the key database did not hold the
+	// key it was verified with (the ring stores what it fetched before it answers)
+	NotStored string
 }
 
 func (w *c19KeysWorld) runOp(ctx context.Context, ring *KeyRing, f *c19Fetcher, g, o int, op c19KeyOp) c19KeyOpRes {
@@ -481,6 +484,19 @@ func (w *c19KeysWorld) runOp(ctx context.Context, ring *KeyRing, f *c19Fetcher, 
 			} else {
 				r.Errs = append(r.Errs, "")
 			}
+		}
+		if db, ok := ring.KeyDatabase.(*c19KeyDB); ok && len(res) == len(op.Items) {
+			db.mu.Lock()
+			for i, it := range op.Items {
+				if res[i].Error != nil || w.c.Servers[it.Srv].Local {
+					continue
+				}
+				pk := PublicKeyLookupRequest{ServerName: spec.ServerName(c19SrvName(it.Srv)), KeyID: c19KeyIDOf(w.keyIndex(it))}
+				if _, held := db.m[pk]; !held && r.NotStored == "" {
+					r.NotStored = fmt.Sprintf("%s/%s", pk.ServerName, pk.KeyID)
+				}
+			}
+			db.mu.Unlock()
 		}
 	}
 	return r
@@ -702,6 +718,9 @@ func c19KeysRun(out *c19Out, raw []byte) {
 				continue
 			}
 			got, seq := results[g][o], ref[g][o]
+			if got.NotStored != "" {
+				out.Fail("C19/keys/verified-with-a-key-not-yet-stored", "goroutine %d op %d: a request verified with the key %s, which the key database did not hold when VerifyJSONs returned (a later call may need it when the server is down)", g, o, got.NotStored)
+			}
 			if got.CallEr != "" {
 				out.Fail("C19/keys/call-error", "goroutine %d op %d (%s): error %s", g, o, op.Kind, got.CallEr)
 				continue
